@@ -23,9 +23,11 @@ type World struct {
 	Basics   []string
 	Unknown  []string
 	Exact    bool
+	Conf     string // configuration file the files need (another comment character), "" if none
 }
 
 type worldOpts struct {
+	AltComment bool // one world in six is written with another comment character (and '#' as an ordinary first character of names)
 	Exact      bool
 	Names      gen.NameOpts
 	MaxDays    int
@@ -39,6 +41,7 @@ type worldOpts struct {
 	NoZero     bool
 	NoDupFoods bool
 	Start      gen.Date
+	NoBig      bool // never the occasional big world (checks that repeat every case many times)
 }
 
 var namesPlain = gen.NameOpts{Unicode: true, Spaces: true, Slash: true, Punct: ".,;'()&%+*=!?@_-#{}<>`|^~$[]", MaxLen: 10}
@@ -61,7 +64,7 @@ func newWorld(r *rand.Rand, o worldOpts) *World {
 	nunk := r.Intn(3)
 	maxEnts := 0
 	wide := false
-	if r.Intn(15) == 0 {
+	if r.Intn(15) == 0 && !o.NoBig {
 		// a big world now and then: counts beyond small-map sizes, buffer sizes and single digits
 		nrec, nbas, nunk = 12+r.Intn(14), 34+r.Intn(16), 20+r.Intn(20)
 		o.MaxDays, maxEnts = 25+r.Intn(20), 90
@@ -71,7 +74,28 @@ func newWorld(r *rand.Rand, o worldOpts) *World {
 		}
 	}
 	all := gen.Names(r, nrec+nbas+nunk, o.Names)
+	var altCC byte
+	if o.AltComment && r.Intn(6) == 0 {
+		altCC = []byte{';', '/', '`', '%', '!'}[r.Intn(5)]
+		for _, n := range all {
+			if n[0] == altCC {
+				altCC = 0
+				break
+			}
+		}
+		if altCC != 0 {
+			// '#' is then an ordinary character: a recipe, a basic element and every third other name begin with it
+			for k := range all {
+				if k == 0 || k == nrec || k%3 == 2 {
+					all[k] = "#" + all[k]
+				}
+			}
+		}
+	}
 	w := &World{Exact: o.Exact, Layout: o.Layout}
+	if altCC != 0 {
+		w.Conf = fmt.Sprintf("[ParserConfig]\nCommentChar=%d\n", altCC)
+	}
 	w.Recipes, w.Basics, w.Unknown = all[:nrec], all[nrec:nrec+nbas], all[nrec+nbas:]
 	if r.Intn(4) == 0 {
 		// names that differ only in letter case are different names: an undefined food spelled like a
@@ -137,6 +161,13 @@ func newWorld(r *rand.Rand, o worldOpts) *World {
 	if o.Hostile {
 		st = gen.Hostile(r)
 	}
+	if altCC != 0 {
+		if st == nil {
+			st = &gen.Style{}
+		}
+		st.Comment = altCC
+		st.Quotes = false
+	}
 	w.BookText = gen.RenderBook(w.Book, st)
 	w.LogText = gen.RenderLog(w.Log, o.Layout, st)
 	return w
@@ -166,7 +197,18 @@ func caseVariant(s string) string {
 }
 
 func (w *World) Files() map[string]string {
+	if w.Conf != "" {
+		return map[string]string{"food.yaml": w.BookText, "log.yaml": w.LogText, "hr.conf": w.Conf}
+	}
 	return map[string]string{"food.yaml": w.BookText, "log.yaml": w.LogText}
+}
+
+// base is withBase plus the configuration file the world's files need.
+func (w *World) base(extra ...string) []string {
+	if w.Conf != "" {
+		return append([]string{"--config", "hr.conf"}, withBase(extra...)...)
+	}
+	return withBase(extra...)
 }
 
 // Elements returns every element name that can appear in totals.
